@@ -110,10 +110,12 @@ Theorem witnesses_accepted_when_repaired :
 Proof. exact MarkingsC08.witnesses_accepted_when_repaired. Qed.
 Print Assumptions witnesses_accepted_when_repaired.
 
-(* ---- selector syntax: the recogniser that mirrors SELECTOR_REGEX (re.match, so one trailing newline
-        is tolerated) accepts exactly the selector grammar of Spec/MarkingSpec.v;
-        upper_of c = true iff the variant admits A-Z in keys after the first segment ---- *)
-Theorem selector_syntax : forall c s, selector_syntax_ok c s = true <-> selector_text (upper_of c) s.
+(* ---- selector syntax: the recogniser that mirrors SELECTOR_REGEX accepts exactly the selector grammar of
+        Spec/MarkingSpec.v -- with `$` (re.match) also the grammar followed by one newline, with \Z the grammar
+        exactly; upper_of c = true iff the variant admits A-Z in keys after the first segment ---- *)
+Theorem selector_syntax : forall c s,
+  selector_syntax_ok c s = true <->
+  if dollar_of c then selector_text (upper_of c) s else selector_grammar (upper_of c) s.
 Proof. exact MarkingsSyntax.selector_syntax. Qed.
 Print Assumptions selector_syntax.
 
@@ -124,6 +126,9 @@ Theorem selector_syntax_examples :
   selector_syntax_ok cfg_pinned (u "labels.[x]") = false /\
   selector_syntax_ok cfg_pinned (u "labels..a") = false /\
   selector_syntax_ok cfg_pinned (u "x_m.Bar") = false /\
-  selector_syntax_ok cfg_repaired (u "x_m.Bar") = true.
+  selector_syntax_ok cfg_repaired (u "x_m.Bar") = true /\
+  selector_syntax_ok cfg_pinned (10%N :: rev (10%N :: rev (u "name"))) = false /\
+  selector_syntax_ok cfg_pinned (rev (10%N :: rev (u "name"))) = true /\
+  selector_syntax_ok cfg_repaired (rev (10%N :: rev (u "name"))) = false.
 Proof. exact MarkingsSyntax.selector_syntax_examples. Qed.
 Print Assumptions selector_syntax_examples.
